@@ -19,7 +19,10 @@ Inductive input :=
 | IRemoteSeq (allowed : list string) (skip : bool) (steps : list rstep)
     (* oidc.CheckSignature several times on ONE rp remote key set instance (cache
        empty at first); before each call the endpoint may serve another list *)
-| IVerifySeq (k : vkind) (v : verifier) (ks : keyset) (steps : list vstep).
+| IVerifySeq (k : vkind) (v : verifier) (ks : keyset) (steps : list vstep)
+| IProvider (p : provider) (hint : bool) (t : token) (m : middle) (now0 now1 : Z).
+    (* op.NewProvider(options...) then Provider.IDTokenHintVerifier (hint) or
+       Provider.AccessTokenVerifier on one token *)
     (* ONE verifier object (and its storage) reused for several tokens, of
        different issuers / clients *)
 
@@ -40,6 +43,7 @@ Definition model (i : input) : observed :=
   | IVerifySeq k v ks steps =>
       (* a verifier keeps no state between calls *)
       OVerifySeq (map (fun s => run_verifier sym_verify k v ks (vs_tok s) (vs_mid s) (vs_now0 s)) steps)
+  | IProvider p hint t m now0 _ => OVerify (run_provider_verifier sym_verify p hint t m now0)
   end.
 
 (* alg reported with the claims: the header's for token claims, none for
@@ -100,6 +104,15 @@ Fixpoint verify_seq_spec (k : vkind) (v : verifier) (ks : keyset) (steps : list 
   | _, _ => false
   end.
 
+(* ground truth for provider options: each verifier has ITS OWN configured key
+   set and allow-list - the option given for it, else the provider's storage keys *)
+Definition configured_keyset (p : provider) (hint : bool) : keyset :=
+  if hint
+  then match p_hint_keyset p with Some k => k | None => KSOpenID (p_storage_keys p) end
+  else match p_at_keyset p with Some k => k | None => KSOpenID (p_storage_keys p) end.
+Definition configured_verifier (p : provider) (hint : bool) : verifier :=
+  mkVerifier (p_issuer p) "" 0 0 0 None None (if hint then p_hint_algs p else p_at_algs p).
+
 Definition spec (i : input) (o : observed) : bool :=
   match i, o with
   | IFind kid use alg keys, OFind r => find_spec kid use alg keys r
@@ -109,6 +122,9 @@ Definition spec (i : input) (o : observed) : bool :=
   | IVerify k v ks t m _ _, OVerify o => verify_step_ok k v ks t m o
   | IRemoteSeq allowed skip steps, ORemoteSeq l => remote_seq_spec allowed skip [] steps l
   | IVerifySeq k v ks steps, OVerifySeq l => verify_seq_spec k v ks steps l
+  | IProvider p hint t m _ _, OVerify o =>
+      verify_step_ok (if hint then VIDTokenHint else VAccessToken)
+                     (configured_verifier p hint) (configured_keyset p hint) t m o
   | _, _ => false
   end.
 
@@ -145,6 +161,9 @@ Definition path (i : input) (o : observed) : nat :=
   | ICheckSig _ _ _ _, OSig (Err e) => 51 + err_code e
   | IVerify k _ _ _ _ _ _, OVerify (Reject EParse) => 0
   | IVerify k _ _ _ _ _ _, OVerify o => kind_base k + outcome_code o
+  | IProvider p hint _ _ _ _, OVerify (Reject EParse) => 0
+  | IProvider p hint _ _ _ _, OVerify o =>
+      800 + (if hint then 50 else 0) + outcome_code o
   | IRemoteSeq _ _ _, ORemoteSeq l =>   (* accepted / downloads, capped *)
       600 + 10 * Nat.min 9 (List.length (filter (fun x => match fst x with Ok _ => true | _ => false end) l))
       + Nat.min 9 (List.length (filter (fun x => snd x) l))
